@@ -1,5 +1,6 @@
 #!/bin/bash
 # usage: tools_seed_eval.sh <PROP> <tag> [testdirs...]
+# confirms a seeded change (in its scratch worktree; the check runs against that worktree through VERIF_REPO)
 # confirms a seeded change (demo passes on clean tree / fails with the change, given test dirs pass), runs the check against it,
 # stores it under /verif/seeded/<PROP>_<tag>/ and removes the scratch worktree.
 P=$1; T=$2; shift 2
@@ -18,10 +19,8 @@ for d in "$@"; do
   res=$(PYTHONPATH=$WT timeout -k 5 600 /venv/bin/python -m pytest -q -p no:cacheprovider --timeout=120 $d 2>&1 | grep -E "passed|failed" | tail -1)
   echo "tests $d: $res"; tests="$tests $d: $res;"
 done
-cd /repo; git diff --quiet || { echo "/repo dirty"; exit 3; }
-git apply $DST/patch.diff || { echo "patch does not apply to /repo"; exit 3; }
-/venv/bin/python /verif/run_check.py $P --tier quick > /tmp/seed_check.$$ 2>&1; rc=$?
-git checkout -- .
+# run the check against the scratch worktree itself (it has the change applied); /repo is not touched
+VERIF_REPO=$WT /venv/bin/python /verif/run_check.py $P --tier quick > /tmp/seed_check.$$ 2>&1; rc=$?
 grep -E "VIOLATION|KNOWN-FINDING|SELF-CHECK" /tmp/seed_check.$$ | head -4
 grep -B1 VIOLATION /tmp/seed_check.$$ | grep -v VIOLATION | head -2 | cut -c1-300
 echo "check $P quick exit=$rc"
